@@ -8,7 +8,7 @@ exit != 0 => diagnostic on stderr and (packers) no output file; exit 0 => output
 """
 import os, re, errno
 from hypothesis import strategies as st
-import vcommon, vbuild, scenarios
+import vcommon, vbuild, scenarios, treemodel
 from vcommon import Violation, Inconclusive, CaseInfo, Result, Scratch
 
 PROP = "C13"
@@ -267,6 +267,40 @@ def strat(tier, opts):
     return cases(tier)
 
 
+def directed_cases():
+    """scenarios whose interesting fault position needs a specific input shape; run on every invocation"""
+    B = 4096
+    base = lambda **kw: dict(dict(comp="gzip", X=None, B=B, T=False, e=False, j=1, Q=None, devblk=None, defaults={}, source_date_epoch=None, xattr_styles=[0],
+                                  quote_all=False, loc_style=0, packdir_mode=1), **kw)
+    out = []
+    # sqfs2tar -c X on a megabyte that does not compress: one flush of the compressing stream needs several writes (bzip2 hands over a
+    # whole 900k block at once), a failure of one that is not the last must not be forgotten
+    ent = dict(name=b"zz-random", type="file", mode=0o644, uid=0, gid=0, mtime=0, xattrs={}, data=treemodel.content_bytes(("rand", 5, 0, 1100000), B),
+               enc=dict(fmt="ustar", num="octal", ostyle=0, xattrfmt="schily"))
+    for codec in ("bzip2", "gzip", "zstd"):
+        out.append(dict(kind="s2t", opts=base(), relout=False, profile="big_random", codec=None, s2t_codec=codec,
+                        archive=dict(entries=[ent], end_marker=True, global_pax=False, trailing_pad=0)))
+    # xattr table: many sets made of references to one shared value; with different numbers of sets the 8 KiB boundary of the
+    # key/value area falls into a key, a value or the 12 bytes of a reference
+    shared = b"a value that several sets share and that is therefore stored once"
+    for nsets in (600, 607, 619, 655):
+        nodes = [dict(path=b"d%03d" % i, type="dir", mode=0o755, uid=0, gid=0, mtime=0, xattrs={}) for i in range(nsets)]
+        xf = [(n["path"], {b"user.k%d" % j: shared for j in range(10) if (i + 1) >> j & 1 or j == i % 10}) for i, n in enumerate(nodes)]
+        out.append(dict(kind="gen_file", mode="file", opts=base(), relout=False, profile="xattr_refs", nodes=nodes, xattr_file=xf, sort=False))
+    return out
+
+
+def _directed_job(args):
+    case, opts = args
+    try:
+        ci = check_case(case, opts)
+        return ("ok", ci.classes, ci.nontrivial)
+    except Violation as v:
+        return ("bad", str(v), v.sig)
+    except Inconclusive as e:
+        return ("inc", str(e), None)
+
+
 def main(tier, seed, scale=1.0):
     vbuild.build("asan")
     vbuild.build("allocfault")
@@ -277,8 +311,25 @@ def main(tier, seed, scale=1.0):
     opts = {"prop": PROP, "shim": shim, "k_limit": 40 if tier == "quick" else 400, "alloc_limit": 120 if tier == "quick" else 2000,
             "shrink_budget": 60}
     vcommon.run_corpus(PROP, check_case, opts, res)
-    for d in vcommon.run_shards("c13", "check_case", "strat", n, seed, tier, opts):
+    import multiprocessing as mp
+    dc = directed_cases() if scale >= 0.2 else []
+    dp = mp.get_context("fork").Pool(4)
+    dres = dp.map_async(_directed_job, [(c, dict(opts, k_limit=400)) for c in dc], chunksize=1)
+    for d in vcommon.run_shards("c13", "check_case", "strat", n, seed, tier, opts, shards=12):
         res.merge_shard(d)
+    for c, r in zip(dc, dres.get()):
+        res.evaluations += 1
+        res.add_class("directed_" + c["profile"])
+        if r[0] == "ok":
+            if r[2]:
+                res.nontrivial.add(vcommon.case_hash(c))
+            for k in r[1]:
+                res.add_class(k)
+        elif r[0] == "bad":
+            res.violations.append((r[1], vcommon.save_replay(PROP, c, r[1])))
+        else:
+            res.add_class("directed_inconclusive")
+    dp.close()
     res.exhaustive = True
     res.extra["exhaustive_subspace"] = ("per generated input: every single fault position k of each system call class (when <= the limit) and "
                                         "every project allocation (classes alloc_exhaustive / cls_*)")
